@@ -492,6 +492,10 @@ func c14Polygons(c *fw.Ctx, idx int) {
 	if !c14CheckCent(c, "PolygonsCentroid", got, cx, cy, tolx, toly) {
 		return
 	}
+	hg := got
+	if !holdAndRecheck(c, "c14-centroid", "PolygonsCentroid result", func() string { return fw.Fs(hg) }) {
+		return
+	}
 	// the same through a MultiPolygon and through Centroid()
 	mp := geom.NewMultiPolygon(layout)
 	for _, g := range gp {
@@ -671,6 +675,28 @@ func c14LinesPoints(c *fw.Ctx, idx int) {
 					poly.Push(lr2)
 					g7 = xy.NewLineCentroidCalculator(layout).AddPolygon(poly).GetCentroid()
 				}) {
+					return
+				}
+				// a calculator asked twice: the first answer, still held, must not
+				// change when more is added and the calculator is asked again
+				var first, second geom.Coord
+				var firstBits string
+				if c.Guard("panic", func() {
+					calc := xy.NewLineCentroidCalculator(layout)
+					calc.AddLinearRing(lr)
+					first = calc.GetCentroid()
+					firstBits = fw.Fs(first)
+					calc.AddLinearRing(lr2)
+					second = calc.GetCentroid()
+				}) {
+					return
+				}
+				c.Count("calculator_asked_twice")
+				if fw.Fs(first) != firstBits {
+					c.Fail("result-invalidated", "the centroid returned by the first GetCentroid changed from %s to %s after AddLinearRing + GetCentroid", firstBits, fw.Fs(first))
+					return
+				}
+				if !c14CheckCentF(c, "LineCentroidCalculator (second GetCentroid)", second, r2x, r2y, r2tx, r2ty) || !c14CheckCentF(c, "LineCentroidCalculator (first GetCentroid)", first, rx, ry, rtx, rty) {
 					return
 				}
 				if !c14CheckCentF(c, "LinearRingsCentroid(2 rings)", g6, r2x, r2y, r2tx, r2ty) || !c14CheckCentF(c, "LineCentroidCalculator.AddPolygon", g7, r2x, r2y, r2tx, r2ty) {
